@@ -437,7 +437,8 @@ impl FixedMethod {
     /// Checks if the Reph is moveable by the Reph insertion algorithm.
     fn is_reph_moveable(&self) -> bool {
         let mut buf_chars = self.buffer.chars().rev();
-        let right_most = buf_chars.next().unwrap();
+        // The buffer may be empty (Reph typed at the start of a word).
+        let right_most = buf_chars.next().unwrap_or_default();
         let right_most = if right_most == B_CHANDRA {
             buf_chars.next().unwrap_or_default()
         } else {
